@@ -1671,6 +1671,12 @@ impl Session {
             }
             if let Some(st) = self.child_exited() {
                 let tail = self.stderr_tail();
+                if tail.contains("Address already in use") || tail.contains("bind local SRT UDP listener") {
+                    // the environment, not the sender: the SRT port picked for this session was taken between the
+                    // harness's probe and the sender's bind. No verdict; the batch driver retries the session.
+                    self.res.inconclusive = Some(format!("port clash: {tail}"));
+                    break;
+                }
                 let d = format!("the sender process exited ({st}) in phase {} at tick {}; stderr tail: {tail}", self.phase, self.ticks);
                 self.viol("*", "live.sender-process-died", d);
                 break;
@@ -1955,8 +1961,16 @@ pub fn run_batch(cfg: &crate::report::RunCfg, rep: &mut crate::report::Report, s
         o.wrapper = spec.wrapper.clone();
         o.slow = spec.slow;
         o.pps = o.pps.min(spec.pps_cap);
-        let s = Session::start(o, &mut rng)?;
-        Ok(s.run())
+        // a session that lost its SRT port to somebody else between probe and bind is simply run again
+        for _attempt in 0..4 {
+            let s = Session::start(o.clone(), &mut rng)?;
+            let r = s.run();
+            if r.inconclusive.as_deref().is_some_and(|w| w.starts_with("port clash")) {
+                continue;
+            }
+            return Ok(r);
+        }
+        Err("the SRT port of the session was taken four times in a row".into())
     };
     if let Some(c) = cfg.replay_case {
         if c >> 48 != spec.stream {
